@@ -32,7 +32,7 @@ type C15Params struct {
 	// MixCID (listener mode): every second client offers no connection_id extension, so
 	// connections with and without a connection ID share one listener and one address space
 	MixCID bool `json:"mix_cid,omitempty"`
-	ParkPm   int     `json:"park_pm,omitempty"`
+	ParkPm int  `json:"park_pm,omitempty"`
 }
 
 func c15Counts(tier string) (int, int) {
